@@ -39,12 +39,19 @@ class Mismatch(Exception):
     pass
 
 
+_timeouts_seen = [0]
+
+
 def _wait(pred, what, timeout=60.0):
+    # once a replay has timed out in this worker (the real run diverged), later replays do not wait a full minute each
+    if _timeouts_seen[0]:
+        timeout = min(timeout, 8.0)
     t0 = time.time()
     while time.time() - t0 < timeout:
         if pred():
             return
         time.sleep(0.002)
+    _timeouts_seen[0] += 1
     raise Mismatch("timeout waiting for " + what)
 
 
@@ -141,11 +148,12 @@ def replay_trace_on_real_kernel(scn, obs):
                 name = key
                 _wait(lambda: any(("%s completed successfully" % name) in l or ("%s failed" % name) in l for l in out_lines)
                       or proc.poll() is not None, "outcome line of %s" % name)
-        proc.wait(timeout=60)
+        proc.wait(timeout=8 if _timeouts_seen[0] else 60)
         t1.join(5)
         t2.join(5)
     except (Mismatch, subprocess.TimeoutExpired) as ex:
         mism.append(str(ex))
+        _timeouts_seen[0] += 1
         proc.kill()
         proc.wait()
         _kill_leftovers(root)
